@@ -18,7 +18,9 @@ import textwrap
 from fractions import Fraction
 from pathlib import Path
 
-REPO = Path("/repo")
+import os
+
+REPO = Path(os.environ.get("SPLINK_REPO", "/repo"))
 
 
 class TranslateError(Exception):
